@@ -2,6 +2,7 @@
 #
 # Copyright (c) 2020-2022 Tatu Ylonen.  See file LICENSE and https://ylonen.org
 
+import decimal
 import html
 import math
 import re
@@ -968,7 +969,14 @@ def binary_round_fn(
         return 0
     if digits > 400:
         return x
-    return round(x, digits)
+    # Halves are rounded away from zero (2.5 round 0 = 3, -2.5 round 0 = -3,
+    # 1250 round -2 = 1300), not to the even neighbour as Python's round()
+    rounded = decimal.Decimal(repr(x)).quantize(
+        decimal.Decimal(1).scaleb(-digits),
+        rounding=decimal.ROUND_HALF_UP,
+        context=decimal.Context(prec=2000),
+    )
+    return int(rounded) if isinstance(x, int) else float(rounded)
 
 
 binary_round_fns: dict[str, BinaryCallable] = {
